@@ -254,6 +254,14 @@ cfg["C30"] = {
     "assumptions": ledger_assume,
 }
 
+cfg["C24"] = {
+    "title": "Metadata queries are isolated per application, entrypoint and node", "design_ref": "DESIGN.md §4 C24 / §7.2",
+    "runs": [{"dir": "utils", "quick": P("VerifNameCodec", "a=2,e=2,s=2", "a=3,e=2,s=2", "a=1,e=3,s=3"), "thorough": P("VerifNameCodec", "a=2,e=2,s=2", "a=3,e=2,s=2", "a=1,e=3,s=3", "a=4,e=3,s=2", "a=5,e=2,s=1"), "samples": 3}],
+    "bounds": "the name codec only (second sentence of the property): application, entrypoint and suffix are strings of SYMBOLIC bytes (every byte 1..127 at once) of the stated lengths (app 1-5, entrypoint 1-3, suffix 1-3); accepted names = non-empty application name, Entrypoint.Validate accepts the entrypoint name (executed on the symbolic bytes), suffix letters only",
+    "outside": "query isolation in store/*/workload.go and deploy.go (key prefixes scanned by etcd / Redis: I/O); node names; non-ASCII bytes and longer names (the codec loops are per byte, so the length bound is a stated bound, not a proof)",
+    "assumptions": [common_stubs + "; strings with symbolic bytes: the real strings.Join/Split/TrimLeft/Contains SSA runs, the two assembly kernels bytealg.IndexByteString / CountString are byte-wise models"],
+}
+
 meta = {
     "C01": "Every feasible path of strategy.Deploy and the five real strategy functions (real container/heap and sort SSA) is executed with capacities, counts, need, limit, usage and rate symbolic; on each path z3 proves the plan assertions (only candidates, 0<=d<=capacity, exact totals, EACH/FILL selection sizes, AUTO node limit) for all values inside the bounds, or returns a model that is replayed natively. Bounded by node count and, for AUTO/GLOBAL, by need.",
     "C02": "Same exploration; on every path z3 proves err==nil <=> a harness-side reference feasibility predicate (saturating sums, no wrap) and that a refusal returns no plan.",
@@ -271,6 +279,7 @@ meta = {
     "C10": "The real ReallocResource / RemoveWorkload / DissociateWorkload (with the real utils.Txn, lock wrappers and node selection) are executed against an abstract ledger world with a symbolic single fault; z3 proves usage = sum of recorded workloads after every outcome, for all symbolic amounts.",
     "C11": "Same executions; when (a part of) the operation reports failure, z3 proves that records, amounts, containers and usage equal the pre-state for every fault position.",
     "C16": "wal.Hydro.Log/Recover/recover/decodeEvent run from real SSA over a model KV; operation sequences and all handler outcomes are symbolic; z3-decided paths prove handlers run only for logged-and-uncommitted events, in logging order, at most once per recovery, removal iff handled or unnecessary, ids strictly increasing.",
+    "C24": "utils.MakeWorkloadName / ParseWorkloadName and types.Entrypoint.Validate run on names made of symbolic bytes; z3 proves per path that the parsed application, entrypoint and suffix equal the originals for all byte values, outside the recorded finding (application names starting with '/').",
     "C29": "rpc.toSendLargeFileChunks is executed on a content slice whose LENGTH is a symbolic integer; z3 proves for every length in range that the chunks are consecutive, non-empty, at most 2048 bytes, cover [0,L) exactly and carry size/targets/owner/mode.",
     "C36": "interceptor.NewStreamRetry and retryStream.{SendMsg,RecvMsg,getStream,setStream} are executed against model streams with symbolic per-call outcomes; z3-decided paths prove raw stream for unlisted methods, re-send of the original request on the reopened stream, messages from the newest stream, reopen attempts within Max+1, no retry after context.Canceled.",
     "C30": "The real RunAndWait (lambda closure, processStdStream, doRemoveWorkloadSync -> RemoveWorkload pipeline, WAL create-lambda event) runs against the ledger world under the run-to-completion goroutine model with symbolic engine outcomes for logs and wait; z3-decided paths prove every started workload ends removed (record, container, usage), its last message is the exit code unless logs/wait failed, every log entry is committed and the stream closes (a receive that can never be satisfied is a hang violation).",
